@@ -45,6 +45,11 @@ def _generated():
     out["gen/kamstrup/body-ct-padded"] = (body, "Kamstrup_notification_body")
     out["gen/kamstrup/frame-ct-padded"] = (C.llc_apdu(body, _DT, False, invoke=0), "Kamstrup_frame")
     out["gen/p1/small"] = (b"\r\n1-0:1.8.0(00001605.055*kWh)\r\n1-0:32.7.0(234.4*V)\r\n0-0:1.0.0(201020085222W)\r\n", "P1")
+    # long but perfectly well-formed payloads (longer than an HDLC frame / a P1 readout could carry, yet legal for the decoders)
+    body, _, _ = C.kamstrup_body("Kamstrup_V0001", kitems, [0, 1900, 0] + [0] * (len(kitems) - 2))
+    out["gen/kamstrup/body-2KiB-null-padding"] = (body, "Kamstrup_notification_body")
+    out["gen/kamstrup/frame-2KiB-null-padding"] = (C.llc_apdu(body, _DT, False, invoke=0), "Kamstrup_frame")
+    out["gen/p1/10KiB"] = (b"".join(b"1-0:%d.%d.0(%08d*kWh)\r\n" % (i % 200 + 1, i // 200, i) for i in range(400)), "P1")
     return out
 
 
@@ -53,9 +58,9 @@ NAMES = sorted(GENUINE)
 PRIME_FOR = {d: next(n for n in NAMES if GENUINE[n][1] == d) for d in DECODER_NAMES}
 
 
-def hdlc_frame_with(payload: bytes) -> bytes:
+def hdlc_frame_with(payload: bytes, seg: int = 0) -> bytes:
     """A well-formed HDLC frame (unstuffed) carrying payload as its information field, delimited by flags."""
-    fr = GH.build_frame(0xA, 0, b"\x01", b"\x02\x01", 0x10, payload[:2030])
+    fr = GH.build_frame(0xA, seg, b"\x01", b"\x02\x01", 0x10, payload[:2030])
     return b"\x7e" + fr + b"\x7e"
 
 
